@@ -17,6 +17,8 @@ for mod in ("props.c15", "props.c19", "props.c14"):
     m = importlib.import_module(mod)
     class C:  # minimal ctx
         def log(self, *a): print(*a)
+    if not hasattr(m, "regenerate"):
+        print("skip", mod, "(no regenerate)"); continue
     err = m.regenerate(C())
     if err: print("WARNING: regeneration failed:", err)
 PY
